@@ -73,6 +73,12 @@ int main(int argc, char** argv){
     else if (v == "foreign") { for (unsigned d = 0; d < nd; d++) { st = 0; fits_delete_key(f, ("ORDER" + std::to_string(d)).c_str(), &st); } st = 0; fits_delete_key(f, "TYPE", &st); int n = 0; st = 0; fits_get_num_hdus(f, &n, &st); while (n > 1) { fits_movabs_hdu(f, n, &hd, &st); fits_delete_hdu(f, &hd, &st); n--; } }
     st = 0; fits_close_file(f, &st);
     int r = in_child(corrupt_child, 0); if (r == 3) bad = 1; else if (r >= 128) { printf("the process crashed (signal %d) reading the file or destroying the table\n", r - 128); bad = 1; }
+  } else if (scen == "keylimits") {
+    for (unsigned kl : {1u, 8u, 9u, 10u, 21u, 30u}) for (int delta : {0, 1}) { unsigned lim = kl <= 8 ? 68 : 80 - (13 + kl); std::string key(kl, 'K'), val(lim + delta, 'v'); key[0] = 'Q';
+      ST t; table(t); bool thr = false; try { t.write_key(key.c_str(), val.c_str()); } catch (std::exception&) { thr = true; }
+      if (thr != (delta > 0)) { printf("write_key with a key of %u characters %s a value of %u characters (card limit %u)\n", kl, thr ? "rejected" : "accepted", lim + delta, lim); bad = 1; }
+      if (!thr) { t.write_fits(path); ST r; r.read_fits(path); const char* got = r.get_aux_value(key.c_str()); std::string g = got ? got : "<missing>"; while (!g.empty() && g.back() == ' ') g.pop_back();
+        if (g != val) { printf("key of %u characters: accepted value of %zu characters came back from the file with %zu characters\n", kl, val.size(), g.size()); bad = 1; } } }
   } else {
     for (int k = 0; k < 5000 && !bad; k++) { int r = in_child(allocfail_child, k); if (r == 9) break; if (r == 3) bad = 1; else if (r >= 128) { printf("allocation #%d failing: the process crashed (signal %d) in the operation or when the objects were destroyed\n", k, r - 128); bad = 1; } }
   }
